@@ -11,19 +11,19 @@ open SpatialId
 theorem convertZToMinAltitudekey_eq (f zi zo E O : Int) :
     Gen.convertZToMinAltitudekey f zi zo E O = Outcome.ofOption (zToMinKey f zi zo E O) := by
   unfold Gen.convertZToMinAltitudekey zToMinKey
-  simp only [Id.run, id_pure, CalculateArithmeticShift_eq, validateIndexExists_eq]
+  simp only [Id.run, id_pure, gen_helper, CalculateArithmeticShift_eq, validateIndexExists_eq]
   tie_auto
 
 theorem convertZToMaxAltitudekey_eq (f zi zo E O : Int) :
     Gen.convertZToMaxAltitudekey f zi zo E O = Outcome.ofOption (zToMaxKey f zi zo E O) := by
   unfold Gen.convertZToMaxAltitudekey zToMaxKey
-  simp only [Id.run, id_pure, CalculateArithmeticShift_eq, validateIndexExists_eq]
+  simp only [Id.run, id_pure, gen_helper, CalculateArithmeticShift_eq, validateIndexExists_eq]
   tie_auto
 
 theorem ConvertZToMinMaxAltitudekey_eq (f zi zo E O : Int) :
     Gen.ConvertZToMinMaxAltitudekey f zi zo E O = z2k f zi zo E O := by
   unfold Gen.ConvertZToMinMaxAltitudekey z2k
-  simp only [Id.run, id_pure, convertZToMinAltitudekey_eq, convertZToMaxAltitudekey_eq]
+  simp only [Id.run, id_pure, gen_helper, convertZToMinAltitudekey_eq, convertZToMaxAltitudekey_eq]
   cases zToMinKey f zi zo E O <;> cases zToMaxKey f zi zo E O <;> simp only [Outcome.ofOption, id_pure] <;> tie_auto
 
 end SpatialId.Tie
